@@ -3,6 +3,8 @@ package harness
 import (
 	"encoding/json"
 	"fmt"
+	at "github.com/DanielSvub/anytype"
+	"math"
 	"os"
 	"path/filepath"
 	"sort"
@@ -132,6 +134,61 @@ func fuzzProp(f *testing.F, id string) {
 	}))
 }
 
+// TestC12Reject: whatever an insertion that was correctly rejected leaves behind (a counter, a mark, a
+// lock) must not make later insertions of supported values fail. Tens of thousands of nested values
+// holding an unsupported value are offered through several entry points (each panic recovered, as a
+// caller would), then a supported nested value must go through every entry point as usual.
+func TestC12Reject(t *testing.T) {
+	p := registry["C12"]
+	type unsupported struct{ X int }
+	deep := any(make(chan int))
+	for i := 0; i < 60; i++ {
+		if i%2 == 0 {
+			deep = []any{1, deep}
+		} else {
+			deep = map[string]any{"k": deep}
+		}
+	}
+	host, obj := at.NewList(1, 2, 3), at.NewObject("a", 1)
+	rejected := 0
+	offer := func(f func()) {
+		if _, panicked := catch(f); panicked {
+			rejected++
+		}
+	}
+	for i := 0; i < 12000; i++ {
+		bad := []any{i, unsupported{i}}
+		badMap := map[string]any{"a": []any{unsupported{i}}}
+		switch i % 6 {
+		case 0:
+			offer(func() { at.NewList(bad) })
+		case 1:
+			offer(func() { host.Add(badMap) })
+		case 2:
+			offer(func() { obj.Set("k", bad) })
+		case 3:
+			offer(func() { host.SetTF("#1", badMap) })
+		case 4:
+			offer(func() { host.Replace(0, []any{[]any{bad}}) })
+		default:
+			offer(func() { at.NewObject("k", badMap) })
+		}
+		if i%40 == 0 {
+			offer(func() { host.Insert(1, deep) })
+		}
+	}
+	global.CountN("reject.rejected_nested_values", rejected)
+	good := TV{T: "slice_any", Items: []TV{{T: "map_any", Items: []TV{{T: "int", I: 1}, {T: "slice_any", Items: []TV{{T: "string", S: "x"}}}}, Keys: []string{"a", "b"}}, {T: "float32", F: uint64(math.Float32bits(1.5))}}}
+	goodMap := TV{T: "map_any", Items: []TV{good, {T: "nil"}}, Keys: []string{"l", "n"}}
+	for _, e := range c12Entries {
+		for _, v := range []TV{good, goodMap} {
+			if err := RunCase(p, &C12Case{Val: v, Entry: e}); err != nil {
+				t.Fatalf("C12 after %d rejected insertions, entry %s: %v", rejected, e, err)
+			}
+		}
+	}
+}
+
 // TestC02Sweep enumerates every Unicode scalar value (exhaustive sub-domain of C02).
 func TestC02Sweep(t *testing.T) {
 	p := registry["C02"]
@@ -172,7 +229,22 @@ func TestC04Enum(t *testing.T) {
 		}
 	}
 	global.CountN("enum.literal_words", 7*len(c04Words))
+	// every escape spelling of a lexicon (JSON escapes, Go-only escapes that decode to arbitrary bytes,
+	// broken ones) inside a string value and inside a key, at several depths
+	for _, tpl := range []string{"[\"§\"]", "{\"§\":1}", "{\"a\":\"§\"}", "[{\"§\":[]}]", "{\"k\":{\"§\":null}}", "[\"a§b\",\"§\"]", "{\"§\":{\"§\":\"§\"}}"} {
+		for _, e := range c04Escapes {
+			in := strings.ReplaceAll(tpl, "§", e)
+			if err := RunCase(p, &C04Case{Mode: "bytes", Bytes: RawBytes(in)}); err != nil {
+				t.Fatalf("C04 escape enumeration %q with %q: %v", tpl, e, err)
+			}
+		}
+	}
+	global.CountN("enum.escape_spellings", 7*len(c04Escapes))
 }
+
+var c04Escapes = []string{`\x00`, `\x41`, `\x7f`, `\x80`, `\xff`, `\xc3\xa9`, `\xc3`, `\xZZ`, `\x4`, `\377`, `\000`, `\101`, `\303\251`, `\400`, `\8`, `\0`,
+	`\U0010ffff`, `\U00110000`, `\U0000d800`, `\U0001f600`, `\U123`, `\a`, `\v`, `\e`, `\'`, `\?`, `\u00ff`, `\u0000`, `\ud800`, `\udc00x`, `\ud83d\ude00`,
+	`\ud83dx`, `\ud83d\u0041`, `\u12`, `\uZZZZ`, `\u+123`, `\u 123`, `\\x41`, `\\u0041`, `\\\x41`, `\b\f\n\r\t\/\"\\`}
 
 var c04Words = []string{"NaN", "nan", "NAN", "Inf", "inf", "+Inf", "-Inf", "Infinity", "-Infinity", "+infinity", "1e999", "-1e999", "1e-999",
 	"0x10", "0X1F", "0b101", "0o17", "017", "1_000", "0x1p4", "0x1.8p1", "1e5", "1E5", ".5", "5.", "+1", "--1", "TRUE", "True", "T", "F", "t", "f",
@@ -180,4 +252,3 @@ var c04Words = []string{"NaN", "nan", "NAN", "Inf", "inf", "+Inf", "-Inf", "Infi
 	"2147483647", "2147483648", "-2147483649", "4294967296", "9007199254740993", "9223372036854775807", "9223372036854775808",
 	"-9223372036854775808", "-9223372036854775809", "18446744073709551616", "1.7976931348623157e308", "1.7976931348623159e308", "5e-324", "2e-324",
 	"0.1", "-0", "-0.0", "0e0", "1e+0", "1e-0", "00", "-", "+", ".", "e", "E5", "0x", "0b", "1e", "1e+", "truefalse", "nulll", "tru", "nul"}
-
